@@ -1180,10 +1180,37 @@ Proof.
   apply Hnotin. rewrite Heq. now apply in_delegated_names.
 Qed.
 
+(** no object identity is listed by two different local phases *)
+Definition cross_ok (s : oset) : Prop :=
+  forall front ph back, os_phases s = front ++ ph :: back -> ph_class ph = false ->
+    forall k, In k (phase_keys (as_owner s) ph) -> forall q, In q front -> ph_class q = false -> ~ In k (phase_keys (as_owner s) q).
+
+Fixpoint cross_distinctb (m : oset) (phs : list phase) : bool :=
+  match phs with
+  | [] => true
+  | q :: r => forallb (fun ph => ph_class q || ph_class ph ||
+                                forallb (fun k => negb (existsb (okey_eqb k) (pkeys m q))) (pkeys m ph)) r &&
+              cross_distinctb m r
+  end.
+
+Lemma cross_distinctb_spec m : forall phs, cross_distinctb m phs = true ->
+  forall front ph back, phs = front ++ ph :: back -> ph_class ph = false ->
+    forall k, In k (pkeys m ph) -> forall q, In q front -> ph_class q = false -> ~ In k (pkeys m q).
+Proof.
+  induction phs as [|q0 r IH]; intros H front ph back Hsplit Hc k Hk q Hq Hcq Hkq; [destruct front; discriminate|].
+  cbn in H. apply andb_true_iff in H. destruct H as [H0 Hr].
+  destruct front as [|f front]; [contradiction|]. cbn in Hsplit. injection Hsplit as <- ->.
+  destruct Hq as [<-|Hq].
+  - rewrite forallb_forall in H0. assert (Hin : In ph (front ++ ph :: back)) by (apply in_or_app; right; now left).
+    specialize (H0 ph Hin). rewrite Hcq, Hc in H0. cbn in H0. rewrite forallb_forall in H0. specialize (H0 k Hk).
+    apply negb_true_iff in H0. apply existsb_okey in Hkq. congruence.
+  - exact (IH Hr front ph back eq_refl Hc k Hk q Hq Hcq Hkq).
+Qed.
+
 Lemma tpm_trace force s : forall rphs sw sw' evs r back before,
   teardown_phases_m force sw s (as_owner s) rphs = (sw', evs, r) ->
   os_phases s = rev rphs ++ back ->
-  NoDup (delegated_names s (os_phases s)) -> NoDup (local_keys (as_owner s) (os_phases s)) ->
+  NoDup (delegated_names s (os_phases s)) -> cross_ok s ->
   os_orphan s = false -> later_gone s before back ->
   forallb (td_check s) (C15Corr.with_prefix before evs) = true /\
   (r = TdOk true -> later_gone s (before ++ evs) (os_phases s)).
@@ -1236,7 +1263,7 @@ Proof.
         destruct Hx as (y & -> & Hy & l1' & ->). rewrite Forall_forall in Hin. specialize (Hin y Hy).
         apply (td_check_write s _ (SMember y) (rev rest) ph back Horph Hsplit); [| |intros q Hq Hcq; apply (Hback l1' q (or_intror Hq) Hcq)|reflexivity|exact I].
         + intros q Hq. cbn. destruct (ph_class q) eqn:Ecq; [reflexivity|]. cbn. apply Bool.not_true_is_false. intros Hex. apply existsb_okey in Hex.
-          rewrite Hsplit in Hndk. exact (nodup_keys_front _ _ _ _ _ _ Hndk Ecl Hin Hq Ecq Hex).
+          exact (Hndk _ _ _ Hsplit Ecl _ Hin q Hq Ecq Hex).
         + cbn. rewrite Ecl. cbn. now apply existsb_okey. }
     destruct Hstep as [Hf1 Hlg1].
     destruct r1 as [|[|]]; try (injection H as _ <- <-; split; [exact Hf1|discriminate]).
@@ -1245,10 +1272,10 @@ Proof.
     rewrite with_prefix_app, forallb_app, Hf1, Hf2. split; [reflexivity|]. now rewrite app_assoc.
 Qed.
 
-(** an ObjectSet that is being deleted / archived lists no object identity twice (its local phases) *)
+(** in an ObjectSet that is being deleted / archived no object identity is listed by two different local phases *)
 Definition going_keys_nodup (c : scase) : bool :=
   match find_set (sc_sets c) (sc_kind c) (sc_ns c) (sc_name c) with
-  | Some m => negb (is_goingb m) || negb (C15Corr.names_nodup m) || SetMonitors.keys_nodup m
+  | Some m => negb (is_goingb m) || negb (C15Corr.names_nodup m) || cross_distinctb m (os_phases m)
   | None => true
   end.
 
@@ -1265,7 +1292,8 @@ Proof.
   destruct (target_kind m) as [(_ & _ & ->)|[(Hgb & _ & Hg)|(_ & -> & _)]]; [reflexivity| |reflexivity].
   rewrite Hgb in *. cbn [negb orb] in *.
   destruct (C15Corr.names_nodup m) eqn:Hn; [|reflexivity]. cbn [negb orb] in *.
-  apply names_nodup_spec in Hn. apply keys_nodup_iff in Hkn.
+  apply names_nodup_spec in Hn.
+  assert (Hcross : cross_ok m) by (intros front ph back Hsp; exact (cross_distinctb_spec m _ Hkn front ph back Hsp)).
   assert (Ef' : find_set (sw_sets (sc_world c)) (sc_kind c) (sc_ns c) (sc_name c) = Some m) by exact Ef.
   unfold SetCorr.model_run in E.
   pose proof (objectset_pass_going (sc_force c) _ _ _ _ _ _ _ _ Ef' Hg E) as Hd.
@@ -1279,7 +1307,7 @@ Proof.
   { unfold teardown_of in Htd. destruct (os_fin m); [|injection Htd as _ <- _; split; [reflexivity|discriminate]].
     destruct (os_orphan m) eqn:Horph; [injection Htd as _ <- _; split; [reflexivity|discriminate]|].
     assert (Hsplit : os_phases m = rev (rev (os_phases m)) ++ []) by now rewrite rev_involutive, app_nil_r.
-    destruct (tpm_trace (sc_force c) m _ _ _ _ _ [] [] Htd Hsplit Hn Hkn Horph) as [H1 H2]; [intros q []|].
+    destruct (tpm_trace (sc_force c) m _ _ _ _ _ [] [] Htd Hsplit Hn Hcross Horph) as [H1 H2]; [intros q []|].
     split; [exact H1|]. intros _ _ Ht. exact (H2 Ht). }
   destruct Htev as [-> Hlg]. cbn [andb].
   apply forallb_with_prefix. intros l1 x l2 Hl.
